@@ -55,6 +55,9 @@ class Put(Event, ContextManager['Put'], Generic[ResourceType]):
         """
         if not self.triggered:
             self.resource.put_queue.remove(self)
+            # The cancelled request may have been the one blocking the queue:
+            # requests behind it may be satisfiable now.
+            self.resource._trigger_put(None)
 
 
 class Get(Event, ContextManager['Get'], Generic[ResourceType]):
@@ -93,6 +96,9 @@ class Get(Event, ContextManager['Get'], Generic[ResourceType]):
         """
         if not self.triggered:
             self.resource.get_queue.remove(self)
+            # The cancelled request may have been the one blocking the queue:
+            # requests behind it may be satisfiable now.
+            self.resource._trigger_get(None)
 
 
 PutType = TypeVar('PutType', bound=Put)
